@@ -472,3 +472,104 @@ def events_history(rng, length):
         g.hist.append((MSK, [sid]))
     g.hist.append((DROPW, []))
     return g.hist
+
+
+LINS, LINSALL, LREM, LEXEC = 60, 61, 62, 63
+wg.NAMES.update({60: "LazyInsert", 61: "LazyInsertAll", 62: "LazyRemove", 63: "LazyExec"})
+
+
+def encode_ops(ops):
+    out = []
+    for code, p in ops:
+        out += [code, len(p)] + list(p)
+    return out
+
+
+def lazy_history(rng, length, sids=None):
+    """C09: lazy inserts, batch inserts, removes, closures (nested up to depth 3, creating / deleting
+    entities, queueing further closures) and lazy builders, interleaved with direct operations, over
+    several maintains; targets that die in the same frame; deferred creations on reused indices."""
+    g = Gen(rng)
+    pool = sids if sids is not None else list(range(16))
+    for sid in rng.sample(pool, rng.randint(1, min(3, len(pool)))):
+        g.register(sid)
+    g.hist.append((wg.CI, [rng.randint(1, 4)]))
+    g.created(g.hist[-1][1][0])
+
+    def simple_op():
+        """an operation a closure may run (and that the top level may run too)"""
+        sid = rng.choice(g.regs)
+        h = g.handle()
+        k = rng.random()
+        if k < 0.25:
+            u, v = g.tok(sid)
+            return (INS, [sid, h, u, v])
+        if k < 0.35:
+            return (REM, [sid, h])
+        if k < 0.45:
+            return (GET, [sid, h])
+        if k < 0.55:
+            op = (wg.C, g.comps(2))
+            g.created(1)
+            return op
+        if k < 0.62:
+            op = (wg.EC, [])
+            g.created(1)
+            return op
+        if k < 0.72:
+            h2 = g.handle(0.8)
+            g.kill(h2)
+            return (rng.choice([wg.D, wg.ED]), [h2])
+        if k < 0.80:
+            return (MSK, [sid])
+        if k < 0.88:
+            u, v = g.tok(sid)
+            return (LINS, [sid, h, u, v])
+        if k < 0.93:
+            return (LREM, [sid, h])
+        return (wg.PROBE, [])
+
+    def closure(depth):
+        ops = []
+        for _ in range(rng.randint(1, 4)):
+            if depth < 3 and rng.random() < 0.25:
+                ops.append((LEXEC, encode_ops(closure(depth + 1))))
+            else:
+                ops.append(simple_op())
+        return ops
+
+    while len(g.hist) < length:
+        r = rng.random()
+        sid = rng.choice(g.regs)
+        if r < 0.14:
+            h = g.handle()
+            u, v = g.tok(sid)
+            g.hist.append((LINS, [sid, h, u, v]))
+        elif r < 0.20:
+            items = []
+            for _ in range(rng.randint(1, 3)):
+                u, v = g.tok(sid)
+                items += [g.handle(), u, v]
+            g.hist.append((LINSALL, [sid] + items))
+        elif r < 0.27:
+            g.hist.append((LREM, [sid, g.handle()]))
+        elif r < 0.42:
+            g.hist.append((LEXEC, encode_ops(closure(1))))
+        elif r < 0.50:
+            g.hist.append((wg.LC, g.comps(3)))
+            g.created(1)
+        elif r < 0.66:
+            g.hist.append((wg.M, []))
+        elif r < 0.72:
+            g.deletion()
+        elif r < 0.78:
+            g.creation()
+        else:
+            g.hist.append(simple_op())
+    g.hist.append((wg.M, []))
+    for sid in g.regs:
+        g.hist.append((MSK, [sid]))
+    g.hist.append((wg.PROBE, []))
+    g.hist.append((wg.M, []))
+    g.hist.append((DROPW, []))
+    return g.hist
